@@ -74,13 +74,48 @@ func runC09Init(c *Ctx, named *types.Named) {
 			}
 			// a function that also READS the field it stores replaces an installed value (the periodic
 			// map rebuild); only functions that store without reading are installers
+			// (a read that only feeds a nil comparison is the lazy initialiser's own test; a read that happens
+			// AFTER the store — Store's lookup behind its inlined initialiser — uses the installed value)
 			reads := map[*ssa.Function]set{}
 			for fn := range per {
 				reads[fn] = set{}
+				var stores []ssa.Instruction
 				for _, b := range fn.Blocks {
 					for _, ins := range b.Instrs {
-						if u, ok := ins.(*ssa.UnOp); ok {
-							if f, ok := fieldOfLoad(u); ok {
+						if stt, ok := ins.(*ssa.Store); ok {
+							if fa, ok := stt.Addr.(*ssa.FieldAddr); ok && namedOf(fa.X.Type()) == named && !isNilConst(stt.Val) {
+								stores = append(stores, ins)
+							}
+						}
+					}
+				}
+				for _, b := range fn.Blocks {
+					for idx, ins := range b.Instrs {
+						u, ok := ins.(*ssa.UnOp)
+						if !ok {
+							continue
+						}
+						f, ok := fieldOfLoad(u)
+						if !ok {
+							continue
+						}
+						onlyNilTests := true
+						for _, r := range refs(u) {
+							if bo, ok := r.(*ssa.BinOp); ok && (bo.Op == token.EQL || bo.Op == token.NEQ) && (isNilConst(bo.X) || isNilConst(bo.Y)) {
+								continue
+							}
+							onlyNilTests = false
+						}
+						if onlyNilTests {
+							continue
+						}
+						// does a store of the same field come after this read?
+						after := map[ssa.Instruction]bool{}
+						for _, later := range instrsReachableAfter(b, idx) {
+							after[later] = true
+						}
+						for _, st := range stores {
+							if fa := st.(*ssa.Store).Addr.(*ssa.FieldAddr); fa.Field == f && after[st] {
 								reads[fn][f] = true
 							}
 						}
